@@ -3,14 +3,14 @@
 # scratch worktree of /repo HEAD with VERIF_REPO pointing at it) and write seeded/RESULTS.md.
 TIER=${1:-quick}; JOBS=${2:-4}
 cd /verif
-ls -d seeded/C*-m* | xargs -P $JOBS -I{} sh -c 'VERIF_PROCS=4 tools/try_seed_wt.sh {} '$TIER' > /tmp/seedres_$(basename {}).txt 2>&1'
+ls -d seeded/C*-m* | xargs -P $JOBS -I{} sh -c 'VERIF_PROCS=4 tools/try_seed_wt.sh {} '$TIER' > /verif/.scratch/seedres_$(basename {}).txt 2>&1'
 {
   echo "# Seeded changes vs. the registered $TIER tier (repo HEAD $(git -C /repo rev-parse --short HEAD), $(date -u +%F))"
   echo
   echo "| seed | property | what was changed | needs | result |"
   echo "|---|---|---|---|---|"
   for d in seeded/C*-m*; do n=$(basename $d)
-    python3 - "$d" "$(cat /tmp/seedres_$n.txt | tail -1)" <<'PY'
+    python3 - "$d" "$(cat /verif/.scratch/seedres_$n.txt | tail -1)" <<'PY'
 import json,sys
 m=json.load(open(sys.argv[1]+'/meta.json')); r=sys.argv[2]
 res='CAUGHT' if r.startswith('CAUGHT') else ('MISSED' if r.startswith('MISSED') else r[:40])
@@ -22,5 +22,5 @@ print(f"| {sys.argv[1].split('/')[-1]} | {m['property']} | {cl(m['summary'])} | 
 PY
   done
 } > seeded/RESULTS.md
-rm -f /tmp/seedres_*.txt; rm -rf /tmp/c11_m*
+rm -f /verif/.scratch/seedres_*.txt; rm -rf /tmp/c11_m*
 grep -c CAUGHT seeded/RESULTS.md; grep "MISSED\|HARNESS\|NEEDS" seeded/RESULTS.md | cut -c1-120
